@@ -1,6 +1,7 @@
 import Gallia.Lib.Proto
 import Gallia.Model.Doip
-open Gallia Gallia.Proto Gallia.Doip Gallia.Framing
+import Gallia.Model.DoipSys
+open Gallia Gallia.Proto Gallia.Doip Gallia.Framing Gallia.DoipSys
 
 /-
   line protocol (one reply line per request line):
@@ -12,12 +13,37 @@ open Gallia Gallia.Proto Gallia.Doip Gallia.Framing
     connect <src> <tgt> <ver> <atype> <timeout_ms>   DoIPTransport.connect on a fresh connection
     state                              "q=[..] closed=<0|1> now=<ms> out=[t:hex,..]"
     parse <hex>                        what the reader task makes of a byte stream: "<items> | <leftover>"
+
+  whole executions (`Model/DoipSys.lean`); a script is staged line by line and then run:
+    sys <src> <tgt> <ver> <drainYields 0|1>    start a script on a fresh established connection
+    gw <t_ms> <hex>                    the gateway delivers these bytes at absolute time t
+    gweof <t_ms>                       the stream ends at absolute time t
+    cl <think_ms> write <hex> <tmo|->  client program: `think` after the previous call returned (or after 0), do ...
+    cl <think_ms> read <tmo|->
+    cl <think_ms> activate <atype> <tmo|->
+    cl <think_ms> close
+    run                                "done=[t:want:res,..] q=[..] held=[..] closed=<0|1> client=<idle|waiting> out=[..] tr=<..> tie=<t|0> left=<n>"
+    runv                               the same, preceded by the event list that was executed
 -/
+
+inductive GwEv
+  | bytes (b : Bytes)
+  | eof
+
+inductive COp
+  | write (d : Bytes) (t : Option Nat)
+  | read (t : Option Nat)
+  | activate (a : UInt8) (t : Option Nat)
+  | close
 
 structure DSt where
   cfg : Cfg := ⟨0, 0, 2⟩
   st : St := {}
   arr : List (Nat × Bytes) := []
+  -- staged whole-execution script
+  drain : Bool := true
+  gws : List (Nat × GwEv) := []
+  prog : List (Nat × COp) := []
 
 /-- `GenericDoIPHeaderNACKCodes(code)` with its `_missing_` (the queue holds the enum member) -/
 def hdrNackName (c : UInt8) : UInt8 := if c ≤ 4 then c else 0xFF
@@ -50,6 +76,98 @@ def showState (s : St) : String :=
   s!"q={showList (s.queue.map showFrame)} closed={if s.closed then 1 else 0} now={s.now} " ++
   s!"out={showList (s.out.map fun o => s!"{o.1}:{hexOrDash o.2}")}"
 
+/-! ### whole executions: turn a timed script into an event list and run it -/
+
+structure Run where
+  sys : Sys := {}
+  gws : List (Nat × GwEv)
+  prog : List (Nat × COp)
+  ops : List Op := []        -- executed so far (reversed)
+  tie : Nat := 0             -- first instant at which a gateway event coincides with a client start / a timer
+  last : Nat := 0            -- when the previous client call returned
+
+def Run.emit (c : Cfg) (y : Raw → Bool) (r : Run) (op : Op) : Run :=
+  let s' := execOp c y r.sys op
+  let last :=
+    if r.sys.done.length < s'.done.length then (s'.done.getLast?.map (·.t)).getD r.last
+    else if op == .close then s'.now else r.last
+  { r with sys := s', ops := op :: r.ops, last := last }
+
+def deadlineOf : Client → Option Nat
+  | .idle => none
+  | .waiting _ _ p cl =>
+    match p, cl with
+    | some a, some b => some (min a b)
+    | some a, none => some a
+    | none, some b => some b
+    | none, none => none
+
+def optMin (a b : Option Nat) : Option Nat :=
+  match a, b with
+  | some x, some y => some (min x y)
+  | some x, none => some x
+  | none, y => y
+
+def COp.toOp : COp → Op
+  | .write d t => .write d t
+  | .read t => .read t
+  | .activate a t => .activate a t
+  | .close => .close
+
+/-- earliest event first; at one instant: timers, then the gateway, then the client (`tie` reports a gateway event
+    coinciding with a client start or a deadline - the order of the real loop is then not determined) -/
+def runScript (c : Cfg) (y : Raw → Bool) : Nat → Run → Run
+  | 0, r => r
+  | fuel + 1, r =>
+    let now := r.sys.now
+    let tg := r.gws.head?.map (·.1)
+    let idle := r.sys.client == .idle
+    let tc := if idle then r.prog.head?.map (fun p => max (r.last + p.1) now) else none
+    let td := deadlineOf r.sys.client
+    match optMin (optMin tg tc) td with
+    | none => r
+    | some t =>
+      let r := if r.tie == 0 && tg.isSome && (tg == tc || tg == td) then { r with tie := tg.getD 0 } else r
+      if now < t then runScript c y fuel (r.emit c y (.advance (t - now)))
+      else if td.isSome && td == some t then runScript c y fuel (r.emit c y (.advance 0))
+      else if tg == some t then
+        match r.gws with
+        | (_, .bytes b) :: rest => runScript c y fuel ({ r with gws := rest }.emit c y (.feed b))
+        | (_, .eof) :: rest => runScript c y fuel ({ r with gws := rest }.emit c y .eof)
+        | [] => r
+      else
+        match r.prog with
+        | (_, op) :: rest => runScript c y fuel ({ r with prog := rest }.emit c y op.toOp)
+        | [] => r
+
+def showWant : Want → String
+  | .ack _ => "write"
+  | .rar => "activate"
+  | .diag => "read"
+
+def showTr (tr : List Tr) : String :=
+  String.ofList (tr.map fun
+    | .rx .fatal => 'f'
+    | .rx .drop => 'd'
+    | .rx .alive => 'a'
+    | .rx (.q _) => 'q'
+    | .reply => 'R')
+
+def heldOf : Client → List Frame
+  | .idle => []
+  | .waiting _ sk _ _ => sk
+
+def showOp : Op → String
+  | .feed b => s!"feed:{hexOrDash b}"
+  | .activate a t => s!"activate:{a.toNat}:{showOptNat t}"
+  | .write d t => s!"write:{hexOrDash d}:{showOptNat t}"
+  | .read t => s!"read:{showOptNat t}"
+  | .close => "close"
+  | .eof => "eof"
+  | .advance dt => s!"advance:{dt}"
+
+def parseTmo (s : String) : Option (Option Nat) := if s == "-" then some none else s.toNat?.map some
+
 def finishOp (d : DSt) (r : OpRes × Nat × St) : DSt × String :=
   ({ d with st := r.2.2, arr := [] }, s!"{showRes r.1} {r.2.1}")
 
@@ -79,6 +197,48 @@ def step (d : DSt) (line : String) : DSt × String :=
       finishOp { d with cfg := cfg } (opConnect cfg (UInt8.ofNat a) tmo d.arr)
     | _, _, _, _, _ => (d, "bad-op")
   | ["state"] => (d, showState d.st)
+  | ["sys", s, t, v, dr] =>
+    match s.toNat?, t.toNat?, v.toNat? with
+    | some s, some t, some v => ({ cfg := ⟨s, t, UInt8.ofNat v⟩, drain := dr != "0" }, "ok")
+    | _, _, _ => (d, "bad-op")
+  | ["gw", t, h] =>
+    match t.toNat?, parseHex h with
+    | some t, some b => ({ d with gws := d.gws ++ [(t, .bytes b)] }, "ok")
+    | _, _ => (d, "bad-op")
+  | ["gweof", t] =>
+    match t.toNat? with
+    | some t => ({ d with gws := d.gws ++ [(t, .eof)] }, "ok")
+    | _ => (d, "bad-op")
+  | ["cl", th, "write", h, tmo] =>
+    match th.toNat?, parseHex h, parseTmo tmo with
+    | some th, some b, some tmo => ({ d with prog := d.prog ++ [(th, .write b tmo)] }, "ok")
+    | _, _, _ => (d, "bad-op")
+  | ["cl", th, "read", tmo] =>
+    match th.toNat?, parseTmo tmo with
+    | some th, some tmo => ({ d with prog := d.prog ++ [(th, .read tmo)] }, "ok")
+    | _, _ => (d, "bad-op")
+  | ["cl", th, "activate", a, tmo] =>
+    match th.toNat?, a.toNat?, parseTmo tmo with
+    | some th, some a, some tmo => ({ d with prog := d.prog ++ [(th, .activate (UInt8.ofNat a) tmo)] }, "ok")
+    | _, _, _ => (d, "bad-op")
+  | ["cl", th, "close"] =>
+    match th.toNat? with
+    | some th => ({ d with prog := d.prog ++ [(th, .close)] }, "ok")
+    | _ => (d, "bad-op")
+  | [cmd] =>
+    if cmd == "run" || cmd == "runv" then
+      let r := runScript d.cfg (DoipSys.asyncioYields d.drain) (4 * (d.gws.length + d.prog.length) + 16)
+        { gws := d.gws, prog := d.prog }
+      let s := r.sys
+      let line :=
+        s!"done={showList (s.done.map fun e => s!"{e.t}:{showWant e.w}:{showRes e.res}")} " ++
+        s!"q={showList (s.queue.map showFrame)} held={showList ((heldOf s.client).map showFrame)} " ++
+        s!"closed={if s.closed then 1 else 0} client={if s.client == .idle then "idle" else "waiting"} " ++
+        s!"out={showList (s.out.map fun o => s!"{o.1}:{hexOrDash o.2}")} tr={showTr s.tr} " ++
+        s!"tie={r.tie} left={r.gws.length + r.prog.length}"
+      ({ d with gws := [], prog := [] },
+       if cmd == "runv" then s!"ops={showList (r.ops.reverse.map showOp)} " ++ line else line)
+    else (d, "bad-op")
   | ["parse", h] =>
     match parseHex h with
     | some b =>
